@@ -1,6 +1,7 @@
 package crlloader
 
 import (
+	"context"
 	"io"
 	"io/fs"
 	"net/http"
@@ -9,6 +10,7 @@ import (
 
 	"github.com/gr33nbl00d/caddy-revocation-validator/zz_verif/verifrt"
 	"go.uber.org/zap"
+	"go.uber.org/zap/zapcore"
 )
 
 // ---- a source of n bytes (n may be symbolic): the content is irrelevant, only sizes are tracked ----
@@ -46,6 +48,7 @@ var (
 	c17Names  map[string]bool // files that exist (by path)
 	c17Eff    int             // file-system effects so far (create, write, rename, remove)
 	c17Crash  int             // the process dies right after this many effects (-1: never)
+	c17Debug  bool            // debug logging enabled
 )
 
 func c17Effect() {
@@ -128,36 +131,82 @@ func installC17World(n int) {
 	verifrt.Override("net/http.Get", func(url string) (*http.Response, error) {
 		return &http.Response{StatusCode: 200, Body: c17Source}, nil
 	})
+	// the explicit form: NewRequest + Client.Do. net/http's contract: the transport asks for gzip and unpacks it
+	// transparently ONLY if the caller did not set Accept-Encoding itself; otherwise the caller gets the
+	// compressed bytes as they are (here: a body of a different length than the document)
+	verifrt.OverrideIfPresent("net/http.NewRequest", func(method, u string, b io.Reader) (*http.Request, error) {
+		return &http.Request{Method: method, Header: http.Header{}}, nil
+	})
+	verifrt.OverrideIfPresent("net/http.NewRequestWithContext", func(ctx context.Context, method, u string, b io.Reader) (*http.Request, error) {
+		return &http.Request{Method: method, Header: http.Header{}}, nil
+	})
+	verifrt.OverrideIfPresent("(net/http.Header).Set", func(h http.Header, k, v string) { h[k] = []string{v} })
+	verifrt.OverrideIfPresent("(net/http.Header).Add", func(h http.Header, k, v string) { h[k] = append(h[k], v) })
+	verifrt.OverrideIfPresent("(*net/http.Client).Do", func(c *http.Client, r *http.Request) (*http.Response, error) {
+		if len(r.Header["Accept-Encoding"]) > 0 || len(r.Header["accept-encoding"]) > 0 {
+			return &http.Response{StatusCode: 200, Body: &sizedSrc{n: c17Source.n / 2}}, nil
+		}
+		return &http.Response{StatusCode: 200, Body: c17Source}, nil
+	})
+	// the level of the logger is configuration: debug output may be on or off
+	verifrt.Override("(go.uber.org/zap/zapcore.nopCore).Enabled", func(l zapcore.Level) bool { return c17Debug })
+	// httputil.DumpResponse(resp, true) reads the whole body into memory and puts a copy back
+	verifrt.OverrideIfPresent("net/http/httputil.DumpResponse", func(resp *http.Response, body bool) ([]byte, error) {
+		if !body {
+			return nil, nil
+		}
+		all, err := io.ReadAll(resp.Body)
+		if err != nil {
+			return nil, err
+		}
+		resp.Body = &sizedSrc{n: len(all)}
+		return all, nil
+	})
 }
 
 // VerifC17_Loaders: fetching a CRL of n bytes - from a file or from a URL - into the work directory
-// allocates no buffer larger than the 32 KiB copy buffer (plus slack), for every n up to 100 000
-// (symbolic) and for n = 100 000 exactly, and writes exactly n bytes: the document is streamed,
-// never held in memory as a whole.
+// (a) writes exactly n bytes for EVERY n up to max (n symbolic), and (b) uses buffers whose largest one
+// is the same for a 100 000-byte and a 300 000-byte document and smaller than either: the document is
+// streamed, never held in memory as a whole, whatever constant buffer size the implementation picks.
 func VerifC17_Loaders() {
-	max := verifrt.Param("max", 100000)
-	n := max
+	useURL := verifrt.Choose(2) == 1
+	debug := verifrt.Choose(2) == 1 // log level debug or above
+	load := func() error {
+		if !useURL {
+			l := &FileLoader{FileName: "/etc/pki/ca.crl", Logger: zap.NewNop()}
+			verifrt.Reach("file-loader")
+			return l.copyToTargetFile("/work/crl_tmp_1")
+		}
+		l := &URLLoader{UrlString: "http://pki.example.com/ca.crl", Logger: zap.NewNop()}
+		verifrt.Reach("url-loader")
+		return l.downloadCRL("http://pki.example.com/ca.crl", "/work/crl_tmp_1")
+	}
 	if verifrt.Choose(2) == 1 {
-		n = verifrt.NondetInt("n")
+		max := verifrt.Param("max", 100000)
+		n := verifrt.NondetInt("n")
 		verifrt.Assume(n >= 0)
 		verifrt.Assume(n <= max)
+		installC17World(n)
+		c17Debug = debug
+		verifrt.KeepSymbolicBounds(true)
+		err := load()
+		verifrt.Assert(err == nil, "copy of a readable source succeeds")
+		verifrt.Assert(c17Target != nil && c17Target.written == n, "exactly the n bytes of the source are written")
+		verifrt.Reach("streamed")
+		return
 	}
-	installC17World(n)
-	verifrt.KeepSymbolicBounds(true)
-	verifrt.AllocBudget(32*1024 + 4096)
-	var err error
-	if verifrt.Choose(2) == 0 {
-		l := &FileLoader{FileName: "/etc/pki/ca.crl", Logger: zap.NewNop()}
-		err = l.copyToTargetFile("/work/crl_tmp_1")
-		verifrt.Reach("file-loader")
-	} else {
-		l := &URLLoader{UrlString: "http://pki.example.com/ca.crl", Logger: zap.NewNop()}
-		err = l.downloadCRL("http://pki.example.com/ca.crl", "/work/crl_tmp_1")
-		verifrt.Reach("url-loader")
+	measure := func(n int) int {
+		installC17World(n)
+		c17Debug = debug
+		verifrt.MaxAlloc(true)
+		err := load()
+		verifrt.Assert(err == nil && c17Target != nil && c17Target.written == n, "the document is copied completely")
+		return verifrt.MaxAlloc(false)
 	}
-	verifrt.Assert(err == nil, "copy of a readable source succeeds")
-	verifrt.Assert(c17Target != nil && c17Target.written == n, "exactly the n bytes of the source are written")
-	verifrt.Reach("streamed")
+	m1 := measure(100000)
+	m3 := measure(300000)
+	verifrt.Assert(m1 == m3, "the largest buffer does not depend on the size of the document")
+	verifrt.Reach("buffers-compared")
 }
 
 // VerifC20_DownloadArtefacts: the REAL file and URL loaders fetch a document into the temporary file the
